@@ -165,3 +165,153 @@ func wrapperLocksAt(info *types.Info, call *ast.CallExpr, argIdx int, held LockS
 	}
 	return nil, false
 }
+
+// Closure factories (`func (t *T) collector(dst Set) func(E) { return func(e E) {...} }`).
+//
+// The literal such a function returns runs wherever the closure is called, so the lockset engine
+// analyses it there (lockset.go: factoryLit / litAliased), with the factory's receiver and
+// parameters standing for the receiver and arguments of the factory call. handledFactoryLits
+// returns the literals for which EVERY use of the factory is of a kind the engine follows - the
+// call is bound to a local that is only called or handed on as an argument, or it is itself an
+// argument - so that analysing the literal a second time inside the factory (where no lock is
+// held, and where it never runs) can be skipped. Any other use (the closure stored in a field,
+// returned further, the factory used as a method value) keeps the conservative analysis in place.
+func handledFactoryLits(p *Prog, pkg string) map[*ast.FuncLit]bool {
+	out := map[*ast.FuncLit]bool{}
+	pk := p.Pkg(pkg)
+	if pk == nil {
+		return out
+	}
+	info := pk.TypesInfo
+	type factory struct {
+		lit *ast.FuncLit
+		bad bool
+		n   int
+	}
+	facts := map[types.Object]*factory{}
+	for _, fd := range p.AllFuncDecls(pkg) {
+		if fd.Body == nil || len(fd.Body.List) != 1 {
+			continue
+		}
+		rs, ok := fd.Body.List[0].(*ast.ReturnStmt)
+		if !ok || len(rs.Results) != 1 {
+			continue
+		}
+		if lit, isLit := ast.Unparen(rs.Results[0]).(*ast.FuncLit); isLit {
+			if obj := info.Defs[fd.Name]; obj != nil {
+				facts[obj] = &factory{lit: lit}
+			}
+		}
+	}
+	if len(facts) == 0 {
+		return out
+	}
+	for _, fd := range p.AllFuncDecls(pkg) {
+		if fd.Body == nil {
+			continue
+		}
+		// locals bound to a factory call in this function
+		bound := map[types.Object]*factory{}
+		var stack []ast.Node
+		ast.Inspect(fd.Body, func(n ast.Node) bool {
+			if n == nil {
+				stack = stack[:len(stack)-1]
+				return true
+			}
+			stack = append(stack, n)
+			id, ok := n.(*ast.Ident)
+			if !ok {
+				return true
+			}
+			parentAt := func(k int) ast.Node {
+				// k-th ancestor, skipping parentheses and the selector the identifier is the Sel of
+				i := len(stack) - 2
+				for ; i >= 0; i-- {
+					if _, isParen := stack[i].(*ast.ParenExpr); isParen {
+						continue
+					}
+					if se, isSel := stack[i].(*ast.SelectorExpr); isSel && se.Sel == id {
+						continue
+					}
+					if k == 0 {
+						return stack[i]
+					}
+					k--
+				}
+				return nil
+			}
+			var used types.Object = info.Uses[id]
+			if fn, isFn := used.(*types.Func); isFn {
+				used = fn.Origin() // a method of a generic type is seen through an instantiation
+			}
+			if fa := facts[used]; fa != nil {
+				fa.n++
+				call, isCall := parentAt(0).(*ast.CallExpr)
+				if !isCall || selIdent(call.Fun) != id {
+					fa.bad = true // method value, or mentioned other than as the callee
+					return true
+				}
+				switch up := parentAt(1).(type) {
+				case *ast.CallExpr:
+					isArg := false
+					for _, a := range up.Args {
+						if ast.Unparen(a) == ast.Expr(call) {
+							isArg = true
+						}
+					}
+					if !isArg {
+						fa.bad = true
+					}
+				case *ast.AssignStmt:
+					okBind := false
+					if len(up.Lhs) == len(up.Rhs) {
+						for i, rhs := range up.Rhs {
+							if ast.Unparen(rhs) == ast.Expr(call) {
+								if lid, isId := up.Lhs[i].(*ast.Ident); isId && lid.Name != "_" {
+									o := info.Defs[lid]
+									if o == nil {
+										o = info.Uses[lid]
+									}
+									if o != nil {
+										bound[o] = fa
+										okBind = true
+									}
+								}
+							}
+						}
+					}
+					if !okBind {
+						fa.bad = true
+					}
+				default:
+					fa.bad = true
+				}
+				return true
+			}
+			if fa := bound[info.Uses[id]]; fa != nil {
+				// a use of the local the closure was bound to: called, or handed on as an argument
+				switch up := parentAt(0).(type) {
+				case *ast.CallExpr:
+					if ast.Unparen(up.Fun) == ast.Expr(id) {
+						return true
+					}
+					for _, a := range up.Args {
+						if ast.Unparen(a) == ast.Expr(id) {
+							return true
+						}
+					}
+					fa.bad = true
+				default:
+					fa.bad = true
+				}
+			}
+			return true
+		})
+	}
+	for _, fa := range facts {
+		if !fa.bad && fa.n > 0 {
+			out[fa.lit] = true
+		}
+	}
+	return out
+}
